@@ -148,6 +148,10 @@ def gen_bounds(rng, layout, x0, scale, dim):
                 out.append(None)
             else:
                 out.append((round(c - dec(rng, 0.6, 4) * scale, 3), round(c + dec(rng, 0.6, 4) * scale, 3)))
+        elif layout == "needle":
+            # one coordinate confined to a sliver far narrower than the step size (a resampling strategy needs hundreds of rounds, every
+            # returned row must still be inside), the others free
+            out.append((round(c, 4), round(c + 0.012 * scale, 4)) if j == 0 else None)
         elif layout == "tight":
             out.append((round(c - dec(rng, 0.8, 1.6) * scale, 4), round(c + dec(rng, 0.8, 1.6) * scale, 4)))
         elif layout == "exclude_x0":
@@ -1015,6 +1019,10 @@ def check(rep, tier, seed, driver):
         em, es, layout, sd, md = cs[k % len(cs)]
         k += 1
         cases.append(gen_case(rng, tier, (em, es, layout, sd, md, ARCHIVES[k % 4] if rng.random() < 0.7 else rng.choice(ARCHIVES), STATES[(k // 4) % 3])))
+    for es_name in [e for e in ES_NAMES if e != "pycma_es"] * (1 if tier == "quick" else 4):
+        nc = gen_case(rng, tier, ("es", es_name, "needle", rng.choice(DTYPES), rng.choice(DTYPES), "grid" if "grid" in ARCHIVES else ARCHIVES[0], STATES[0]))
+        cases.append(nc)
+        rep.count("needle_cases")
     rep.extra["pycma_importable"] = have_pycma()
     seen = {}
     for case in cases:
